@@ -259,3 +259,54 @@ def b_rods(tier, seed):
                 if not err <= 1e-9:
                     failures.append({"what": f"{name}: {what}", "input": {"seed": seed}, "detail": f"error {err:.3e}"})
     return {"cases": cases, "distinct": cases, "failures": failures[:12], "bound": f"{len(forms)} formulations x element counts, random curved non-unit reference configurations, one random state and rigid motion each, tolerance 1e-9"}
+
+
+# --------------------------------------------------------------------------- changing the reference after construction
+from vk.registry import contract as _contract  # noqa: E402
+
+
+@_contract("C10", "set_reference_strains/leaves the rod in the state its constructor produces for that reference", samples=0, replayable=False, timeout=60)
+def c_set_reference(k):
+    """"every stress-free reference configuration" includes one set AFTER construction through the public
+    set_reference_strains(Q): the rod built with Q1 and switched to Q2 (and back) must carry exactly the reference tables
+    (Q, J, B_Gamma0, B_Kappa0, dynamic ones too) of a rod built with Q2 (Q1) directly, and its element routines vanish
+    there.  Executed natively on real rods of every interpolation, displacement-based and mixed."""
+    from vk import kit as K
+    from vk import npshim
+
+    if not k.sym:
+        raise K.Reject("decided by native execution")
+    import warnings
+
+    from cardillo.rods import CircularCrossSection, Simo1986
+    from cardillo.rods.cosseratRod import make_CosseratRod
+
+    rng = np.random.default_rng(12)
+    with npshim.active(False), warnings.catch_warnings():
+        warnings.simplefilter("ignore")
+        for interp, mixed in (("Quaternion", False), ("Quaternion", True), ("SE3", False), ("SE3", True), ("R12", False), ("R12", True)):
+            Rod = make_CosseratRod(interpolation=interp, mixed=mixed)
+            k.covers(Rod.set_reference_strains)
+            Q1 = Rod.straight_configuration(2, 1.3)
+            nn = len(Q1) // 7
+            Q2 = Q1.copy()
+            Q2[: 3 * nn] += 0.05 * rng.normal(size=3 * nn)
+            Q2[3 * nn :] += 0.1 * rng.normal(size=4 * nn)
+            mk = lambda Q: Rod(CircularCrossSection(0.1), Simo1986(np.array([5.0, 1.0, 1.5]), np.array([0.5, 0.1, 0.15])), 2, Q=Q.copy(), q0=Q.copy())  # noqa: E731
+            direct = {1: mk(Q1), 2: mk(Q2)}
+            rod = mk(Q1)
+            tables = [a for a in ("Q", "J", "B_Gamma0", "B_Kappa0", "J_dyn", "B_Gamma0_dyn", "B_Kappa0_dyn") if hasattr(rod, a)]
+            for step, (Qn, which) in enumerate(((Q2, 2), (Q1, 1), (Q2, 2))):
+                rod.set_reference_strains(Qn.copy())
+                tag = f"{interp}, mixed={mixed}, switch {step + 1} (to reference {which})"
+                for a in tables:
+                    k.prove(f"{tag}: table {a} equals the one of a rod constructed with that reference", bool(np.array_equal(np.asarray(getattr(rod, a)), np.asarray(getattr(direct[which], a)))))
+                rod.assembler_callback()
+                for el in range(rod.nelement):
+                    qe = Qn[rod.elDOF[el]]
+                    if mixed:
+                        val = np.max(np.abs(rod.c_el(qe, np.zeros(rod.nla_c_element), el)))
+                        k.prove(f"{tag}: compliance residual c_el(Q, 0) = 0 on element {el}", bool(val <= 1e-12), show=f"{val:.3e}")
+                    else:
+                        val = max(abs(rod.E_pot_el(qe, el)), np.max(np.abs(rod.f_int_el(qe, el))))
+                        k.prove(f"{tag}: E_pot_el(Q) = 0 and f_int_el(Q) = 0 on element {el}", bool(val <= 1e-12), show=f"{val:.3e}")
